@@ -1,4 +1,5 @@
 import Libp2pModel.Proofs.C26Cfg
+import Libp2pModel.Proofs.C26Keys2
 import Libp2pModel.Common.Machine
 /-!
 # C26 — Mplex enforces its substream and buffer limits without losing data: property theorems
@@ -162,6 +163,17 @@ theorem drop_no_underflow (c : Cfg) (ops : List Op) (id : Sid) :
     (dropStream (reach c ops).s id).2 = false :=
   (Inv_dropStream (reach_inv c ops).1 id).2
 
+/-- **Table entries persist** (the substream table only loses an entry through `drop_stream` of
+that very substream, or when the whole connection fails/closes): for every operation — frames from
+the remote included — if the connection is healthy afterwards, every substream that was in the
+table before is still there, except the one a `drop` names.  Together with `substreams_le` this is
+why the substreams an application holds can never outnumber `max_substreams`; the pre-fix
+`on_reset` broke exactly this (see `reset_removes_substream_buggy_counterexample`). -/
+theorem entries_persist (m : MState) (op : Op) (hst : (step m op).1.s.status = .opn) (j : Sid)
+    (hj : ∀ id, op = .drop id → j ≠ id) (h : (m.s.get j).isSome = true) :
+    ((step m op).1.s.get j).isSome = true :=
+  (step_keeps_entries m op hst).2 j hj h
+
 /-! ### the defect fixed by `findings/C26-reset-removes-substream.fix.diff` -/
 
 /-- Pre-fix `on_reset`: with `max_substreams = 1` and the single substream `0/receiver` already
@@ -209,4 +221,5 @@ end C26
 #print axioms C26.reset_reads_end
 #print axioms C26.buffer_assert_holds
 #print axioms C26.drop_no_underflow
+#print axioms C26.entries_persist
 #print axioms C26.reset_removes_substream_buggy_counterexample
